@@ -3,7 +3,8 @@ from .common import *
 from . import progs
 
 RULE = ("every request sequence id 0..255 (exhaustive) for single- and multi-packet requests (small packet limits), "
-        "followed by responses of 1..600 packets (rows), chains and prepare replies; oracle: the client-side decoder checks "
+        "followed by responses of 1..600 packets (rows), chains and prepare replies; every ordered pair of command kinds "
+        "(field list, ping, init, USE, SELECT @@ probes, query, error, prepare, close) with random request ids; oracle: the client-side decoder checks "
         "that the greeting carries id 0, the auth reply and every response start at (last request id + 1) mod 256 and "
         "continue consecutively modulo 256; non-trivial = request id != 0 or response longer than one packet; distinct = distinct case text")
 ASSUMPTIONS = []
@@ -31,6 +32,28 @@ def run(ctx):
         cases.append(mk_case("c05_%d" % sid, [("query", cmd_query(q), sid), ("ping", cmd_ping(), (sid + 100) % 256),
                                              ("prepare", cmd_prepare(b"p"), 255 - sid)],
                              ["q " + prog, "p reply 1 2 %s %s 1 %s" % (c1, c1, c1)], lim=lim, hs_seq=rng.choice([1, 1, 255, 254])))
+    # every kind of command (the library answers some itself), each preceded by exchanges that leave the
+    # counter at a different value, with arbitrary request ids: each reply must restart from its own request
+    c2 = col(b"b", 253, 0)
+    kinds = [("fieldlist", lambda: cmd_field_list(b"t\x00"), None), ("ping", cmd_ping, None),
+             ("init", lambda: cmd_init(b"db"), "i ok"), ("query", lambda: cmd_query(b"SELECT @@max_allowed_packet"), None),
+             ("query", lambda: cmd_query(b"select @@version_comment"), None), ("query", lambda: cmd_query(b"USE `x`"), "i ok"),
+             ("query", lambda: cmd_query(b"q"), "q start 2 %s %s wr 2 i32:1 s:61 p fin" % (c1, c2)),
+             ("query", lambda: cmd_query(b"e"), "q err 1064 6f6f7073"),
+             ("prepare", lambda: cmd_prepare(b"p"), "p reply 7 1 %s 1 %s" % (c1, c1)),
+             ("prepare", lambda: cmd_prepare(b"bad"), "p err 1146 6e6f"),
+             ("close", lambda: cmd_close(7), None)]
+    n = 0
+    for rep in range(2 if ctx.quick() else 20):
+        for i, (kind, mk, script) in enumerate(kinds):
+            for j, (kind0, mk0, script0) in enumerate(kinds):
+                if ctx.quick() and (i + j + rep) % 3:
+                    continue
+                n += 1
+                s0, s1 = rng.randrange(256), rng.randrange(256)
+                scripts = [x for x in (script0, script) if x]
+                cases.append(mk_case("c05k_%d" % n, [(kind0, mk0(), s0), (kind, mk(), s1), ("ping", cmd_ping(), rng.randrange(256))], scripts,
+                                     lim=rng.choice([U24_MAX, U24_MAX, 5]), hs_seq=rng.choice([1, 200])))
     ctx.corr["exhaustive"] = True
     ctx.diff_conn(cases, oracle=oracle, nontrivial=lambda c, o: True,
                   classify=lambda c, o: ["lim_%s" % (c.lim if c.lim < 1000 else "real"), "pkts_%d" % min(600, sum(1 for l in o if l.startswith("w|")) // 100 * 100)])
